@@ -26,6 +26,13 @@ def pEv : P Ev := do
     else if k = "r" then do let d ← many nat; pure (.frestore s l d)
     else failure
   else if t = "N" then do let s ← nat; let l ← nat; let v ← nat; let tm ← nat; pure (.notify s l (v ≠ 0) tm)
+  else if t = "P" then do
+    let s ← nat; let l ← nat; let tm ← nat; let term ← nat; let role ← nat; let cm ← nat; let last ← nat; let own ← nat
+    let nc ← nat; let nco ← nat; let st ← nat; let il ← nat; let lo ← nat
+    pure (.sample s l tm term role cm last own nc nco st (il ≠ 0) lo)
+  else if t = "ISOL" then do let s ← nat; let tm ← nat; pure (.isol s tm)
+  else if t = "UNISOL" then do let s ← nat; let tm ← nat; pure (.unisol s tm)
+  else if t = "HEALALL" then do let tm ← nat; pure (.healAll tm)
   else if t = "CALM" then do let tm ← nat; pure (.calm tm)
   else if t = "CALMEND" then do let tm ← nat; pure (.calmEnd tm)
   else if t = "ISO" then do let s ← nat; let l ← nat; let tm ← nat; let ls ← nat; pure (.isolate s l tm ls)
@@ -61,11 +68,13 @@ def parseHist (line : String) : Option (List Ev) :=
 abbrev CMon := List Ev → Option String
 
 def cmonFor : String → List CMon
-  | "C01" => [oneSenderPerTerm, oneGrantPerTerm]
+  | "C01" => [oneSenderPerTerm, oneGrantPerTerm, configGated]
   | "C02" => [streamsAgree, streamsInOrder]
-  | "C03" => [ackedSurvive, streamsAgree]
+  | "C03" => [ackedSurvive, streamsAgree, currentTermRule]
   | "C04" => [logsAgree, termsMonotone, retainedAgree]
-  | "C05" => [commitLeLast]
+  | "C05" => [commitLeLast, currentTermRule, ackedSurvive, streamsAgree]
+  | "C07" => [configGated]
+  | "C14" => [isolatedTermConstant]
   | "C08" => [clientOutcomes, barrierOK, ackedSurvive, streamsAgree]
   | "C09" => [verifyFresh]
   | "C13" => [leaseStepDown, calmStable]
@@ -74,7 +83,7 @@ def cmonFor : String → List CMon
   | "C17" => [allResolved]
   | "C18" => [notifyAlternates]
   | _ => [oneSenderPerTerm, oneGrantPerTerm, streamsAgree, streamsInOrder, clientOutcomes, barrierOK, ackedSurvive,
-          logsAgree, termsMonotone, retainedAgree, commitLeLast, converged, allResolved, notifyAlternates, verifyFresh]
+          logsAgree, termsMonotone, retainedAgree, commitLeLast, converged, allResolved, notifyAlternates, verifyFresh, configGated, currentTermRule, isolatedTermConstant]
 
 def cJudgeWith (ms : List CMon) (_caseLine implLine : String) : String :=
   match parseHist implLine with
@@ -82,6 +91,9 @@ def cJudgeWith (ms : List CMon) (_caseLine implLine : String) : String :=
   | some h =>
     match ms.findSome? (fun m => m h) with
     | some b => "bad " ++ b
-    | none => "ok"
+    | none =>
+      match leaderStartIndex h with
+      | some d => "diff " ++ d
+      | none => "ok"
 
 end Drv
